@@ -1,32 +1,45 @@
 import Rbgp.Mon2.Codec
 import Rbgp.Mon2.Spec
+import Rbgp.Mon2.DCodec
+import Rbgp.Mon2.DSpec
 namespace Rbgp.C19
-open Rbgp Rbgp.Term Rbgp.Mon2 Rbgp.Mon2.Codec
+open Rbgp Rbgp.Term Rbgp.Mon2 Rbgp.Mon2.Codec Rbgp.Mon2.DCodec
 
 def verdictStr : Spec.Verdict → String
   | .ok => "ok"
   | .fail i c => s!"fail idx={i} clause={c}"
+
+/-- model observation of a case term: `(case ..)` = packet level, `(dcase ..)` = daemon level -/
+def modelOf (t : Term) : Option Obs :=
+  match caseOf? t with
+  | some c => some (run c)
+  | none => (dcaseOf? t).map drun
+
+def oracleOf (t : Term) (o : Obs) : Option Spec.Verdict :=
+  match caseOf? t with
+  | some c => some (Spec.check c o)
+  | none => (dcaseOf? t).map fun d => DSpec.check d o
 
 /-- mode `model`: case ↦ observation of the model;
     mode `oracle`: case TAB observation ↦ verdict of the C19 reference checker. -/
 def handler (mode : String) (line : String) : String :=
   match mode with
   | "model" =>
-      match (parse line).bind caseOf? with
-      | some c => toStr (obsT (run c))
+      match (parse line).bind modelOf with
+      | some o => toStr (obsT o)
       | none => "(bad-case)"
   | "oracle" =>
       match parseMany line with
       | some [c, o] =>
-          match caseOf? c with
-          | some cs =>
-              match o with
-              | .list [.atom "bad-case"] => "(bad-case)"
-              | _ =>
-                match obsOf? o with
-                | some ob => verdictStr (Spec.check cs ob)
-                | none => "fail idx=0 clause=unparsable-observation"
-          | none => "(bad-case)"
+          match o with
+          | .list [.atom "bad-case"] => "(bad-case)"
+          | _ =>
+            match obsOf? o with
+            | some ob =>
+              match oracleOf c ob with
+              | some v => verdictStr v
+              | none => "(bad-case)"
+            | none => "fail idx=0 clause=unparsable-observation"
       | _ => "(bad-line)"
   | _ => "(bad-mode)"
 
